@@ -16,10 +16,39 @@ use des::net::module::ModuleId;
 use des::prelude::*;
 use implrun::Cur;
 use std::panic::{catch_unwind, AssertUnwindSafe};
+use std::sync::atomic::{AtomicBool, AtomicU64, Ordering};
 use std::sync::{Arc, Mutex};
 
+static PROGRESS: AtomicU64 = AtomicU64::new(0);
+static BUSY: AtomicBool = AtomicBool::new(false);
+
 fn main() {
+    // A gate walk that does not terminate (the subject of C08's termination theorem) would
+    // hang the runner: abort instead, so that the unanswered scripts count as crashes.
+    std::thread::spawn(|| {
+        let (mut last, mut stuck) = (0, 0);
+        loop {
+            std::thread::sleep(std::time::Duration::from_secs(1));
+            let p = PROGRESS.load(Ordering::SeqCst);
+            stuck = if BUSY.load(Ordering::SeqCst) && p == last { stuck + 1 } else { 0 };
+            last = p;
+            if stuck >= 20 {
+                std::process::exit(3);
+            }
+        }
+    });
     implrun::run_main(run_line)
+}
+
+fn run_line(nums: &[u64]) -> Vec<u64> {
+    PROGRESS.fetch_add(1, Ordering::SeqCst);
+    BUSY.store(true, Ordering::SeqCst);
+    let r = catch_unwind(AssertUnwindSafe(|| run_script(nums)));
+    BUSY.store(false, Ordering::SeqCst);
+    match r {
+        Ok(v) => v,
+        Err(e) => std::panic::resume_unwind(e),
+    }
 }
 
 #[derive(Default)]
@@ -122,7 +151,7 @@ fn site(e: &Box<dyn std::any::Any + Send>, poison_site: u64) -> u64 {
     }
 }
 
-fn run_line(nums: &[u64]) -> Vec<u64> {
+fn run_script(nums: &[u64]) -> Vec<u64> {
     if nums.is_empty() {
         return vec![7];
     }
